@@ -440,6 +440,8 @@ MPI_JOBS = [
     S("h_mpi@24", mpi(0, 0, P=3, n=1, tc=3), MPI_EQ),
     S("h_mpi@64", mpi(0, 2, P=2, n=1, tc=1, fk=1), MPI_EQ),
     S("h_mpi", mpi(0, 0, P=2, n=2, tc=2, dist=1, fk=1), MPI_EQ),
+    S("h_mpi", mpi(0, 0, P=2, n=1, tc=2, dist=1, dist2=1, fk=1), MPI_EQ),     # two distributions (only the first is filled)
+    S("h_mpi", mpi(0, 1, P=2, n=1, tc=2, dist=1, dist2=1, fk=1), MPI_EQ),
     S("h_mpi", mpi(0, 1, P=2, n=2, tc=0, fk=1), MPI_EQ),
     S("h_mpi", mpi(0, 1, P=3, n=1, tc=2, fk=1), MPI_EQ),
     S("h_mpi", mpi(0, 1, P=2, n=2, tc=0, fk=1, user=1), MPI_EQ),
